@@ -155,6 +155,10 @@ def check(run, repo, world):
     cfg = gen_cfg(fn, F)
     ys = yields_of(cfg, world, SEQ)
     nuse += check_value_discipline(run, world, SEQ, F, cfg, ys, smod)
+    # an answer read through raw_value instead of value needs the framing
+    # error test as well as the None test (the rule of the memory reads)
+    from ..seq import check_rdisc
+    check_rdisc(run, world, SEQ, F, cfg, ys, smod)
     _check_input_value(run, world, smod, F, cfg, ys, fn)
     _check_input_value_arith(run, smod, F, fn)
 
@@ -381,23 +385,38 @@ def _check_filters(run, world, mod, F, cfg, ys, fn, setter):
                      unparse(n.ast.args[0]) == y.target and
                      _nearest_yield_before(n, ys) is y]
             okb = bool(tests)
-            for tn in tests:
-                seen, stack = set(), [m for (l, m) in tn.succ if l == "T"]
-                while stack:
-                    n = stack.pop()
-                    if n.id in seen:
-                        continue
-                    seen.add(n.id)
-                    if any(n is y2.node for y2 in ys):
-                        okb = False
-                        break
-                    if n.kind == "stmt" and isinstance(n.ast, ast.Return):
-                        if not (n.ast.value is None or (isinstance(
-                                n.ast.value, ast.Constant) and
-                                n.ast.value.value is None)):
-                            okb = False
-                        continue
-                    stack += [m for (l, m) in n.succ if l != "exc"]
+            # path-sensitive: from the "bad" edge no command is reached and
+            # nothing but None returned (a helper that turns a bad answer
+            # into None, tested by the caller, is followed through the
+            # assignments)
+            tids = {tn.id for tn in tests}
+            cet_ = cond_edge_transfer()
+
+            def bedge(src, label, dst, st, tids=tids, cet_=cet_):
+                st = cet_(src, label, dst, st)
+                if st is None:
+                    return None
+                if src.id in tids and label == "T":
+                    st = st | {"bad-answer"}
+                if src.kind == "test" and isinstance(
+                        src.ast, ast.Call) and unparse(
+                            src.ast.func) == "check_bad_rsp" and \
+                        src.ast.args and label == "F":
+                    # an answer that is not bad is an object (R-BADRSP)
+                    st = st | {("cond", "%s is None" % unparse(
+                        src.ast.args[0]), False)}
+                return st
+            WB = forward_worlds(cfg, kill_conds_on_assign, bedge)
+            for y2 in ys:
+                if WB.worlds_with(y2.node, lambda w: "bad-answer" in w):
+                    okb = False
+            for n in cfg.reachable:
+                if n.kind == "stmt" and isinstance(n.ast, ast.Return) and \
+                        not (n.ast.value is None or (isinstance(
+                            n.ast.value, ast.Constant) and
+                            n.ast.value.value is None)) and WB.worlds_with(
+                                n, lambda w: "bad-answer" in w):
+                    okb = False
             run.ob("R-DTRSYM", "%s#%s-bad-answer-ends" % (F, name), okb,
                    "a missing or garbled answer to %s must end the sequence "
                    "with None; here the sequence goes on and the byte is "
@@ -484,11 +503,28 @@ def _check_filters(run, world, mod, F, cfg, ys, fn, setter):
         for y in ys:
             nm = _short(_q(y))
             if nm.startswith("QueryEventFilter") and y.target:
+                # names the answer is copied to (the return value of an
+                # inlined helper, the caller's variable)
+                al = {y.target}
+                grew = True
+                while grew:
+                    grew = False
+                    for n in cfg.reachable:
+                        if n.kind == "stmt" and isinstance(
+                                n.ast, ast.Assign) and isinstance(
+                                    n.ast.value, ast.Name) and \
+                                n.ast.value.id in al and len(
+                                    n.ast.targets) == 1 and isinstance(
+                                        n.ast.targets[0], ast.Name) and \
+                                n.ast.targets[0].id not in al:
+                            al.add(n.ast.targets[0].id)
+                            grew = True
                 # the assignment `<v> = <target>.value` that follows
                 for n in cfg.reachable:
                     if n.kind == "stmt" and isinstance(n.ast, ast.Assign) \
-                            and _is_attr_chain(n.ast.value,
-                                               [y.target, "value"]) and \
+                            and any(_is_attr_chain(n.ast.value,
+                                                   [a_, "value"])
+                                    for a_ in al) and \
                             isinstance(n.ast.targets[0], ast.Name):
                         # nearest preceding yield must be y
                         if _nearest_yield_before(n, ys) is y:
@@ -548,9 +584,18 @@ def _check_filters(run, world, mod, F, cfg, ys, fn, setter):
     if setter:
         _no_answer_aborts(run, mod, F, cfg, ys, world)
         # type check before first yield
-        first = min((y.node.lineno for y in ys), default=0)
+        # a raise that no command precedes on any path (graph order, not
+        # line numbers: an inlined helper keeps its own lines)
+        after_ = set()
+        stack_ = [m_ for y in ys for (l_, m_) in y.node.succ]
+        while stack_:
+            x_ = stack_.pop()
+            if x_.id in after_:
+                continue
+            after_.add(x_.id)
+            stack_ += [m_ for (l_, m_) in x_.succ]
         ok = any(n.kind == "stmt" and isinstance(n.ast, ast.Raise)
-                 and n.lineno < first for n in cfg.reachable)
+                 and n.id not in after_ for n in cfg.reachable)
         run.ob("R-DEVSEQ-ORDER", F + "#reject-before-yield", ok,
                "a non-int filter must be rejected before the first command",
                where(mod, fn))
@@ -1206,6 +1251,20 @@ def _check_autodiscover(run, world, mod, F, cfg, ys, fn):
                 if not any(f[0] == "cond" and f[1] == "%s.%s" % (X, attr)
                            and f[2] is False for f in w):
                     ok = False
+    if st_y and st_y[0].target:
+        X = st_y[0].target
+        others = sorted({n.ast.attr for n in cfg.reachable
+                         if n.kind == "test" and isinstance(
+                             n.ast, ast.Attribute) and isinstance(
+                                 n.ast.value, ast.Name) and
+                         n.ast.value.id == X and n.ast.attr not in (
+                             "short_address_is_mask", "reset_state")
+                         and _nearest_yield_before(n, ys) is st_y[0]})
+        run.ob("R-DEVSEQ-QUIET", F + "#status-screen-bits", not others,
+               "the scan also decides on status bit(s) %s: a responding, "
+               "addressed device that is not in reset state is healthy for "
+               "the scan whatever its other status bits say, and its "
+               "instances are recorded" % others, where(mod, fn))
     run.ob("R-DEVSEQ-QUIET", F + "#status-screen", ok,
            "devices reporting short_address_is_mask or reset_state must be "
            "skipped", where(mod, fn))
